@@ -653,3 +653,184 @@ Proof.
   - destruct fresh; inversion H; subst; [|split; [apply vstep_refl|reflexivity]].
     split; [apply put_def_vstep; [reflexivity|apply add_port_dvstep]|apply names_put; reflexivity].
 Qed.
+
+(* ---------- items ---------- *)
+Lemma inst_item_vstep cur m i params attrs conns s s' : Inv s -> (cur < length (st_defs s))%nat ->
+  inst_item cur m i params attrs conns s = Ok s' -> vstep s s'.
+Proof.
+  unfold inst_item. intros I Hc H.
+  destruct (get_blackbox m s) as [s1 rk] eqn:G.
+  pose proof (get_blackbox_vstep _ _ _ _ G) as V0.
+  destruct (get_blackbox_inv _ _ _ _ G I) as (I1 & Hrk & Nrk & L1).
+  destruct (_ && _); [destruct (parents_of _ _); [destruct (forallb _ _)|]; discriminate|].
+  set (s2 := elect_step cur rk s1) in *.
+  assert (D2 : st_defs s2 = st_defs s1) by (unfold s2, elect_step; destruct (st_tops s1); reflexivity).
+  assert (P2 : st_pending s2 = st_pending s1) by (unfold s2, elect_step; destruct (st_tops s1); reflexivity).
+  assert (V2 : vstep s1 s2) by (apply vstep_same_defs; [exact D2|intros e He; left; rewrite <- P2; exact He]).
+  apply bind_ok in H. destruct H as ([d1 ii] & H1 & H).
+  destruct (add_inst_inv _ _ _ _ H1) as (N1 & _). destruct (add_inst_dvstep _ _ _ _ H1) as (Dv1 & _ & Hi1 & _).
+  set (s3 := set_curinst (put_def cur d1 s2) (Some (cur, ii))) in *.
+  assert (V3 : vstep s2 s3).
+  { eapply vstep_trans; [apply (put_def_vstep cur d1 s2 N1 Dv1)|]. apply vstep_same_defs; [reflexivity|intros e He; left; exact He]. }
+  assert (N3 : names s3 = names s1).
+  { transitivity (names s2); [|unfold names; rewrite D2; reflexivity]. apply (names_put cur d1 s2 N1). }
+  assert (L3 : length (st_defs s3) = length (st_defs s1)).
+  { unfold s3. cbn. rewrite nth_upd_length, D2. reflexivity. }
+  assert (Hc2 : (cur < length (st_defs s2))%nat) by (rewrite D2; lia).
+  assert (IR3 : iref s3 cur ii rk).
+  { split; [lia|]. split; [lia|]. exists {| ei_name := i; ei_ref := RName m; ei_params := []; ei_attrs := dict_of attrs |}. split.
+    - change (get_def cur s3) with (get_def cur (put_def cur d1 s2)). rewrite get_put_same by exact Hc2. exact Hi1.
+    - cbn [ei_ref]. rewrite (name_kept s1 s3 rk N3 Hrk), Nrk. reflexivity. }
+  assert (ND3 : NoDup (names s3)) by (rewrite N3; apply (iv_names s1 I1)).
+  apply bind_ok in H. destruct H as (s4 & H4 & H). inversion H; subst s'. clear H.
+  assert (V4 : vstep s3 s4).
+  { destruct conns as [l|l].
+    - refine (proj1 (fold_res_vstep (named_conn cur ii rk) (fun x => NoDup (names x) /\ iref x cur ii rk) l _ s3 s4 (conj ND3 IR3) H4)).
+      intros x a b [NDa IRa] Hx. destruct (named_conn_vstep _ _ _ _ _ _ NDa IRa Hx) as [Va Na].
+      split; [exact Va|]. split; [rewrite Na; exact NDa|eapply iref_mono; [apply Va|exact IRa]].
+    - inversion H4; subst s4. apply vstep_same_defs; [reflexivity|]. intros e He. cbn in He. apply in_app_iff in He.
+      destruct He as [He|[<-|[]]]; [left; exact He|right; exact IR3]. }
+  eapply vstep_trans; [exact V0|]. eapply vstep_trans; [exact V2|]. eapply vstep_trans; [exact V3|]. eapply vstep_trans; [exact V4|].
+  apply upd_def_vstep; [reflexivity|apply upd_inst_dvstep; reflexivity].
+Qed.
+
+Lemma defparam_item_vstep cur i k v s s' : defparam_item cur i k v s = Ok s' -> vstep s s'.
+Proof.
+  unfold defparam_item. destruct (st_curinst s) as [[cd ci]|]; [|discriminate]. intros H.
+  apply bind_ok in H. destruct H as (tgt & _ & H). inversion H; subst.
+  apply upd_def_vstep; [reflexivity|apply upd_inst_dvstep; reflexivity].
+Qed.
+
+Lemma body_item_vstep cur it s s' : Inv s -> (cur < length (st_defs s))%nat -> body_item cur it s = Ok s' -> vstep s s'.
+Proof.
+  destruct it as [dir ty rg nms at_|ty rg nms at_|m i ps at_ conns|i k v|lhs rhs|]; cbn [body_item]; intros I Hc H.
+  - eapply lift_vstep; [| |exact H].
+    + apply fold_res_dstep. intros x a b. apply port_decl_one_dstep.
+    + apply fold_res_dvstep. intros x a b. apply port_decl_one_dvstep.
+  - eapply lift_vstep; [| |exact H]; intros a b; [apply wire_decl_dstep|apply wire_decl_dvstep].
+  - eapply inst_item_vstep; eassumption.
+  - eapply defparam_item_vstep; exact H.
+  - apply bind_ok in H. destruct H as (s1 & H1 & H). inversion H; subst.
+    eapply vstep_trans; [eapply lift_vstep; [| |exact H1]; intros a b; [apply assign_item_dstep|apply assign_item_dvstep]|].
+    apply vstep_same_defs; [reflexivity|intros e He; left; exact He].
+  - discriminate.
+Qed.
+
+Lemma cell_item_vstep cur it s s' : cell_item cur it s = Ok s' -> vstep s s'.
+Proof.
+  destruct it; cbn [cell_item]; intros H; try (inversion H; subst; apply vstep_refl).
+  eapply lift_vstep; [| |exact H].
+  - apply fold_res_dstep. intros x a b. apply port_decl_one_dstep.
+  - apply fold_res_dvstep. intros x a b. apply port_decl_one_dvstep.
+Qed.
+
+Lemma fold_items_vstep (f : nat -> vitem -> estate -> result estate) cur l :
+  (forall it s s', f cur it s = Ok s' -> Inv s -> (cur < length (st_defs s))%nat -> Inv s' /\ (length (st_defs s) <= length (st_defs s'))%nat) ->
+  (forall it s s', Inv s -> (cur < length (st_defs s))%nat -> f cur it s = Ok s' -> vstep s s') ->
+  forall s s', Inv s -> (cur < length (st_defs s))%nat -> fold_res (f cur) l s = Ok s' -> vstep s s'.
+Proof.
+  intros Hi Hv s s' I Hc H.
+  refine (proj1 (fold_res_vstep (f cur) (fun x => Inv x /\ (cur < length (st_defs x))%nat) l _ s s' (conj I Hc) H)).
+  intros x a b [Ia La] Hx. split; [eapply Hv; eassumption|]. destruct (Hi _ _ _ Hx Ia La) as [Ib Lb]. split; [exact Ib|lia].
+Qed.
+
+(* ---------- modules ---------- *)
+Lemma module_decl_vstep m s s' : Inv s -> module_decl m s = Ok s' -> vstep s s'.
+Proof.
+  unfold module_decl. intros I H.
+  destruct (get_blackbox (vm_name m) s) as [s1 cur] eqn:G.
+  pose proof (get_blackbox_vstep _ _ _ _ G) as V1.
+  destruct (get_blackbox_inv _ _ _ _ G I) as (I1 & Hc & _ & _).
+  destruct (ed_lib (get_def cur s1)); [discriminate|].
+  set (s2 := upd_def cur _ s1) in *.
+  assert (I2 : Inv s2) by (apply upd_def_inv; [exact I1|apply set_meta_dstep]).
+  assert (V2 : vstep s1 s2) by (apply upd_def_vstep; [reflexivity|apply set_meta_dvstep]).
+  assert (L2 : length (st_defs s2) = length (st_defs s1)) by apply upd_def_length.
+  set (s3 := if vm_cell m then s2 else _) in *.
+  assert (I3 : Inv s3 /\ length (st_defs s3) = length (st_defs s2)).
+  { unfold s3. destruct (vm_cell m); [split; [exact I2|reflexivity]|].
+    split; [|destruct (st_tops s2); reflexivity]. apply inv_set_acount. destruct (st_tops s2) eqn:T; [exact I2|].
+    assert (Hc2 : (cur < length (st_defs s2))%nat) by lia.
+    destruct I2 as [A B C D E]. constructor; cbn; try assumption.
+    intros l t Hl Ht. inversion Hl; subst. destruct Ht as [<-|[]]. exact Hc2. }
+  assert (V3 : vstep s2 s3).
+  { unfold s3. destruct (vm_cell m); [apply vstep_refl|].
+    apply vstep_same_defs; [destruct (st_tops s2); reflexivity|]. intros e He. left. destruct (st_tops s2); exact He. }
+  destruct I3 as [I3 L3].
+  set (s4 := upd_def cur _ s3) in *.
+  assert (I4 : Inv s4) by (apply upd_def_inv; [exact I3|apply set_meta_dstep]).
+  assert (V4 : vstep s3 s4) by (apply upd_def_vstep; [reflexivity|apply set_meta_dvstep]).
+  assert (L4 : length (st_defs s4) = length (st_defs s3)) by apply upd_def_length.
+  apply bind_ok in H. destruct H as (s5 & H5 & H).
+  assert (I5 : Inv s5) by (eapply lift_inv; [|exact H5|exact I4]; apply fold_res_dstep; intros x a b; apply header_entry_dstep).
+  assert (V5 : vstep s4 s5).
+  { eapply lift_vstep; [| |exact H5]; [apply fold_res_dstep; intros x a b; apply header_entry_dstep|apply fold_res_dvstep; intros x a b; apply header_entry_dvstep]. }
+  assert (L5 : length (st_defs s5) = length (st_defs s4)) by (eapply lift_length; exact H5).
+  apply bind_ok in H. destruct H as (s6 & H6 & H).
+  assert (V6 : vstep s5 s6).
+  { destruct (vm_cell m).
+    - eapply (fold_items_vstep (fun c => cell_item c) cur (vm_body m)); [| |exact I5| |exact H6]; [| |lia].
+      + intros it a b Hx Ia _. eapply cell_item_inv; eassumption.
+      + intros it a b _ _ Hx. eapply cell_item_vstep; exact Hx.
+    - eapply (fold_items_vstep (fun c => body_item c) cur (vm_body m)); [| |exact I5| |exact H6]; [| |lia].
+      + intros it a b. apply body_item_inv.
+      + intros it a b. apply body_item_vstep. }
+  eapply vstep_trans; [exact V1|]. eapply vstep_trans; [exact V2|]. eapply vstep_trans; [exact V3|]. eapply vstep_trans; [exact V4|].
+  eapply vstep_trans; [exact V5|]. eapply vstep_trans; [exact V6|].
+  inversion H; subst. destruct (vm_attrs m); [apply vstep_refl|]. apply upd_def_vstep; [reflexivity|apply set_meta_dvstep].
+Qed.
+
+(* ---------- the end of the file ---------- *)
+Lemma close_blackboxes_vstep s : vstep s (close_blackboxes s).
+Proof.
+  set (f := fun d => match ed_lib d with None => set_meta d (Some true) true (ed_params d) (ed_attrs d) | Some _ => d end).
+  assert (Nm : names (close_blackboxes s) = names s).
+  { unfold names, close_blackboxes. cbn. rewrite map_map. apply map_ext. intro d. destruct (ed_lib d); reflexivity. }
+  assert (G : forall k, get_def k (close_blackboxes s) = get_def k s \/
+                        get_def k (close_blackboxes s) = set_meta (get_def k s) (Some true) true (ed_params (get_def k s)) (ed_attrs (get_def k s))).
+  { intro k. unfold get_def, close_blackboxes. cbn. fold f. destruct (lt_dec k (length (st_defs s))) as [Hk|Hk].
+    - rewrite (nth_indep _ dummy_def (f dummy_def)) by (rewrite map_length; exact Hk). rewrite map_nth.
+      unfold f. destruct (ed_lib (nth k (st_defs s) dummy_def)); [left; reflexivity|right; reflexivity].
+    - left. rewrite !nth_overflow by (try rewrite map_length; lia). reflexivity. }
+  constructor; [constructor| |].
+  - exists []. rewrite app_nil_r. exact Nm.
+  - intro k. destruct (G k) as [->| ->]; [apply dmono_refl|apply (dv_mono _ _ (set_meta_dvstep _ _ _ _ _))].
+  - intros k p w H. left. destruct (G k) as [E|E]; rewrite E in H; exact H.
+  - intros e He. left. exact He.
+Qed.
+
+Lemma pending_one_vstep p s s' : Inv s -> pend_ok s p -> pending_one p s = Ok s' -> vstep s s'.
+Proof.
+  destruct p as [[[cur ii] rk] l]. unfold pending_one, pend_ok. intros I IR H.
+  refine (proj1 (fold_res_vstep _ (fun x => NoDup (names x) /\ iref x cur ii rk) (number l) _ s s' (conj (iv_names s I) IR) H)).
+  intros x a b [NDa IRa] Hx. destruct (pos_conn_vstep _ _ _ _ _ _ _ _ NDa IRa Hx) as [Va Na].
+  split; [exact Va|]. split; [rewrite Na; exact NDa|eapply iref_mono; [apply Va|exact IRa]].
+Qed.
+
+Theorem run_vinv doc s : run doc = Ok s -> VInv s.
+Proof.
+  unfold run. intro H. apply bind_ok in H. destruct H as (s1 & H1 & H2).
+  set (s0 := {| st_defs := []; st_tops := None; st_ps := []; st_acount := 0; st_curinst := None; st_pending := [] |}) in *.
+  assert (I0 : Inv s0) by (constructor; cbn; try constructor; try contradiction; try discriminate).
+  assert (V0 : VInv s0).
+  { split; [|intros e []]. intros k p w Hin. unfold get_def in Hin. cbn in Hin. destruct k; destruct Hin. }
+  assert (X1 : vstep s0 s1 /\ Inv s1).
+  { apply (fold_res_vstep module_decl Inv doc) with (s := s0); [|exact I0|exact H1].
+    intros x a b Ia Hx. split; [eapply module_decl_vstep; eassumption|eapply module_decl_inv; eassumption]. }
+  destruct X1 as [V1 I1].
+  assert (VI1 : VInv s1) by (eapply vinv_vstep; eassumption).
+  set (s2 := close_blackboxes s1) in *.
+  assert (VI2 : VInv s2) by (eapply vinv_vstep; [exact VI1|apply close_blackboxes_vstep]).
+  assert (I2 : Inv s2) by (apply close_blackboxes_inv; exact I1).
+  assert (X : forall L a b, Inv a -> VInv a -> (forall e, In e L -> pend_ok a e) -> fold_res pending_one L a = Ok b -> VInv b).
+  { induction L as [|e L IH]; intros a b Ia Va Pa Hf; cbn in Hf; [inversion Hf; subst; exact Va|].
+    apply bind_ok in Hf. destruct Hf as (a1 & Ha1 & Hf).
+    assert (S1 : vstep a a1) by (eapply pending_one_vstep; [exact Ia|apply Pa; left; reflexivity|exact Ha1]).
+    eapply IH; [eapply pending_one_inv; eassumption|eapply vinv_vstep; eassumption| |exact Hf].
+    intros e' He'. eapply pend_ok_mono; [apply S1|apply Pa; right; exact He']. }
+  eapply X; [exact I2|exact VI2|apply VI2|exact H2].
+Qed.
+
+(* every connection of every definition of a state reached from a document shows in the netlist value *)
+Theorem run_visible doc s k : run doc = Ok s -> visible s (get_def k s).
+Proof. intro H. apply conn_ok_visible. apply (proj1 (run_vinv doc s H)). Qed.
